@@ -49,3 +49,16 @@ Print Assumptions C06_engine_reopen_is_invisible.
 
 Theorem C06_engine_reopen_keeps_meaning : forall st : Engine.db, EngineAbs.abs_db (Engine.reopen_db st) = EngineAbs.abs_db st.
 Proof. exact EngineReopen.reopen_abs. Qed.
+
+(* ---- uncommitted and failed work leaves no trace, inside histories (EngineMixedHistories): a write transaction dropped without
+   commit (ERollback), a commit that failed before its header became visible, and a commit cut by a power loss before its header
+   became durable contribute NOTHING to what the database reads as afterwards -- the survivors are exactly the commits that became
+   visible, whatever else happened in between ---- *)
+From Jamm Require EngineCrashHistories EngineMixedHistories.
+Theorem C06_engine_histories_leave_no_trace : forall st0 cd0 l surv stf cdf,
+  EngineMixedHistories.mixed_run st0 cd0 l surv stf cdf -> EngineCrashHistories.Sim st0 cd0 -> EngineReopen.db_inv st0 ->
+  EngineCrashHistories.Sim stf cdf /\ EngineReopen.db_inv stf /\
+  EngineAbs.abs_db stf = EngineCrashHistories.sem_survivors surv (EngineAbs.abs_db st0).
+Proof. exact EngineMixedHistories.engine_mixed_history. Qed.
+Print Assumptions C06_engine_histories_leave_no_trace.
+Check EngineMixedHistories.mixed_run_survivors.
